@@ -1,12 +1,15 @@
 (* Specification of the value store (property C04): what a sequence of encoder operations records
    for one signal, independent of blocks, packing and compression. *)
-From WV Require Import Model.Base Model.WaveMem Spec.TimeSpec.
+From WV Require Import Model.Base Model.Bits Model.WaveMem Spec.TimeSpec.
 Open Scope N_scope.
 
-(* the changes recorded for signal `id`: (index into the accepted time table, value text).
+(* a recorded value: the text of a VCD value change, or a pre-packed value with its kind (GHW path) *)
+Inductive rec_val := RText (v : list byte) | RRaw (data : list byte) (st : Bits.states).
+
+(* the changes recorded for signal `id`: (index into the accepted time table, value).
    `tbl` is the table accepted so far, `skip` says that the current time step was rejected
    (its time stamp went backwards) so that its changes are dropped *)
-Fixpoint recorded (id : nat) (ops : list enc_op) (tbl : list N) (skip : bool) : list (N * list byte) :=
+Fixpoint recorded (id : nat) (ops : list enc_op) (tbl : list N) (skip : bool) : list (N * rec_val) :=
   match ops with
   | [] => []
   | OpTime t :: r =>
@@ -21,7 +24,10 @@ Fixpoint recorded (id : nat) (ops : list enc_op) (tbl : list N) (skip : bool) : 
     end
   | OpVcd i v :: r =>
     if skip || negb (Nat.eqb i id) then recorded id r tbl skip
-    else (N.of_nat (length tbl) - 1, v) :: recorded id r tbl skip
+    else (N.of_nat (length tbl) - 1, RText v) :: recorded id r tbl skip
+  | OpRaw i data st :: r =>
+    if skip || negb (Nat.eqb i id) then recorded id r tbl skip
+    else (N.of_nat (length tbl) - 1, RRaw data st) :: recorded id r tbl skip
   | _ :: r => recorded id r tbl skip
   end.
 
